@@ -87,6 +87,17 @@ where
     }
 }
 
+#[cfg(clarabel_verif)]
+impl<T> DefaultKKTSystem<T>
+where
+    T: FloatT,
+{
+    /// read-only view of the KKT matrix and its index maps (verification hook)
+    pub fn verif_kkt_view(&self) -> Option<crate::verif::KKTView> {
+        self.kktsolver.verif_view()
+    }
+}
+
 impl<T> HasLinearSolverInfo for DefaultKKTSystem<T>
 where
     T: FloatT,
